@@ -461,6 +461,41 @@ Proof.
   rewrite (calls_state_accepted ops (new_builder ty rows cols)), new_builder_last. reflexivity.
 Qed.
 
+(* specification side: the content and the call results of the accepted calls alone *)
+Lemma spec_call_err_last last o e : snd (spec_call last o) = Err e -> fst (spec_call last o) = last.
+Proof.
+  destruct o as [k v|k]; cbn [spec_call]; destruct last as [l|]; cbn [andb snd fst]; try discriminate.
+  - destruct (key_eqb k l); cbn [fst snd]; auto. destruct (key_ltb k l); cbn [fst snd]; auto. discriminate.
+  - destruct (key_ltb k l); cbn [fst snd]; auto. discriminate.
+Qed.
+Lemma spec_call_no_panic last o : snd (spec_call last o) <> Panic.
+Proof.
+  destruct o as [k v|k]; cbn [spec_call]; destruct last as [l|]; cbn [andb snd fst]; try discriminate.
+  - destruct (key_eqb k l); cbn [snd]; try discriminate. destruct (key_ltb k l); discriminate.
+  - destruct (key_ltb k l); discriminate.
+Qed.
+
+Theorem spec_content_accepted ops : forall last acc,
+  spec_content last ops acc = spec_content last (accepted_ops last ops) acc.
+Proof.
+  induction ops as [|o r IH]; intros last acc; [reflexivity|].
+  rewrite accepted_ops_cons. cbn [spec_content].
+  pose proof (spec_call_err_last last o) as HE. pose proof (spec_call_no_panic last o) as HP.
+  destruct (spec_call last o) as [l' x] eqn:E. cbn [fst snd] in *.
+  destruct x as [u|e|]; [|rewrite (HE e eq_refl); apply IH|congruence].
+  cbn [spec_content]. rewrite E. apply IH.
+Qed.
+
+Theorem spec_calls_accepted ops : forall last,
+  Forall (fun r => r = Ok tt) (spec_calls last (accepted_ops last ops)).
+Proof.
+  induction ops as [|o r IH]; intros last; [constructor|].
+  rewrite accepted_ops_cons. destruct (snd (spec_call last o)) as [[]|e|] eqn:E.
+  - rewrite spec_calls_cons, E. constructor; auto.
+  - rewrite (spec_call_err_last _ _ _ E). apply IH.
+  - exfalso. eapply spec_call_no_panic; eauto.
+Qed.
+
 (* ================= C15: the front ends mean the same thing ================= *)
 (* the root is not final before the first accepted key *)
 Definition root_fresh (b : builder) : Prop :=
